@@ -226,6 +226,15 @@ theorem system_entry_is_never_unknown (ks : List Key) (user : Known) (presented 
     sshClientConnect2 (some ks) user presented pol = .badHostKey :=
   known_host_other_key_gets_nothing ks presented pol h
 
+/-- **GSS-API requested but not negotiated.** Whatever options the caller passed (`gss_kex=True` included): unless a
+gss-* key exchange was really negotiated, credentials are offered only to a known server presenting its known
+key, or to an unknown one the policy accepted. -/
+theorem host_key_checked_unless_gss_kex_negotiated (system user : Known) (presented : Key) (pol : Bool)
+    (h : sshClientConnectGss false system user presented pol = .authenticate) :
+    (system = none ∧ user = none ∧ pol = true) ∨
+    (∃ ks, effectiveKnown system user = some ks ∧ findType ks presented.name = some presented) :=
+  two_stores_send_only_if_known_or_accepted system user presented pol (by simpa [sshClientConnectGss] using h)
+
 /-! ## non-vacuity -/
 
 -- a normal connection: password goes out encrypted
